@@ -46,6 +46,9 @@ QString replaceTimePattern(const QString &path)
 QTLOGGER_DECL_SPEC
 QSharedPointer<QFile> createFilePtr(const QString &path)
 {
+    // Failures are reported on std::cerr, also when a sink is created before main()
+    static std::ios_base::Init iosInit;
+
     return QSharedPointer<QFile>::create(replaceTimePattern(path));
 }
 
